@@ -12,6 +12,7 @@ mod c11;
 mod c12;
 mod c14;
 mod c15;
+mod c15h;
 mod c16;
 mod c19;
 mod check;
